@@ -396,6 +396,25 @@ def oracle_recv(data, obs):
 # ----------------------------------------------------------------------------------------------
 # Coq renderings
 
+class GenBytes(bytes):
+    ''' octets that are mkdata(seed, len): written into the Coq files as that call, not as a literal '''
+    seed = 0
+
+
+def gen_bytes(seed, length):
+    obj = GenBytes(mkdata(seed, length))
+    obj.seed = seed
+    return obj
+
+
+def cb(data):
+    if isinstance(data, GenBytes):
+        return '(mkdata %d%%N (N.to_nat %d%%N))' % (data.seed, len(data))
+    if len(data) > 1500:
+        raise ValueError('octet literal too long for a Coq case file')
+    return coq_bytes(data)
+
+
 def c_opt_list(val):
     return '(@nil N)' if val is None else '[%d]%%N' % val
 
@@ -407,7 +426,7 @@ def c_hints(hints):
 def c_msg(case):
     (kind, flags, hints, xfer, idx, data) = case
     return '(%s, %s, %s, %s, %s, %s)' % (coq_N(kind), c_opt_list(flags), c_hints(hints),
-                                         coq_N(xfer), coq_N(idx), coq_bytes(data))
+                                         coq_N(xfer), coq_N(idx), cb(data))
 
 
 def c_codec(msgs, pad):
@@ -426,6 +445,11 @@ def c_xfer(mtu, xid, seed, length, order):
 
 def c_recv(arrival):
     return coq_list(['(%s, %s)' % (coq_N(cnum), coq_bytes(frame)) for (cnum, frame) in arrival], '(N * list N)')
+
+
+def samp(chk, limit, obj):
+    ''' keep the evidence samples spread over the suites '''
+    return obj if len(chk.samples) < limit else None
 
 
 def lst(val):
@@ -472,7 +496,7 @@ def gen_msg(rng, kind=None, big=False):
         idx = 0
         if rng.random() < 0.8:
             dlen = 0
-    return (kind, flags, hints, xfer, idx, rng.randbytes(dlen))
+    return (kind, flags, hints, xfer, idx, gen_bytes(rng.randrange(1, 2 ** 31), dlen) if big else rng.randbytes(dlen))
 
 
 def gen_codec_cases(chk):
@@ -485,9 +509,8 @@ def gen_codec_cases(chk):
             cases.append(([(knd, None, gen_hints(rng, nh), xfer, idx, data)], b''))
     # lengths across the widths of the length field (1, 2, 2.5 octets) -- exact boundaries
     for total in (255, 256, 65535, 65536):
-        cases.append(([(2, None, [], 0, 0, rng.randbytes(total))], b''))
-        cases.append(([(3, None, [(0, b'\x00\x01\x00\x00')], 7, 1, rng.randbytes(total - 14))], b''))
-    cases.append(([(2, None, [], 0, 0, mkdata(5, LEN_MOD - 1))], b''))  # largest encodable message
+        cases.append(([(2, None, [], 0, 0, gen_bytes(total, total))], b''))
+        cases.append(([(3, None, [(0, b'\x00\x01\x00\x00')], 7, 1, gen_bytes(total + 1, total - 14))], b''))
     # hint data at its width boundary, long hint lists (scapy's list limit is 100)
     cases.append(([(4, None, [(127, b'\xff' * 255), (0, b''), (1, b'\x00' * 255)], 1, 2, b'x')], b''))
     cases.append(([(2, None, [(1, b'a')] * 100, 0, 0, b'payload')], b''))
@@ -580,11 +603,12 @@ def gen_send_cases(chk):
     return cases
 
 
-def gen_xfer_cases(chk):
-    ''' (mtu, xid, seed, length, order): all permutations for <= 5 segments,
-    random permutations above. '''
+def gen_xfer_specs(chk):
+    ''' (mtu, xid, seed, length, nperm): transfers that do not fit their MTU.
+    The arrival orders are derived from the number of frames the real sender
+    produces: all permutations up to 5 frames (nperm None) or a sample. '''
     rng = chk.rng
-    cases = []
+    specs = []
     per_n = 3 if chk.quick() else 12
     for nseg in (2, 3, 4, 5):
         for rep in range(per_n):
@@ -593,27 +617,36 @@ def gen_xfer_cases(chk):
             # boundary: last segment full (rep 0), one octet (rep 1), random otherwise
             length = seg * nseg if rep == 0 else seg * (nseg - 1) + (1 if rep == 1 else rng.randrange(1, seg + 1))
             if length < mtu - 4:
-                length = seg * nseg
-                if length < mtu - 4:
-                    continue
+                continue   # fits: not segmented
             xid = rng.choice([0, 1, 2 ** 32 - 1, rng.randrange(2 ** 32)])
-            seed = rng.randrange(1, 2 ** 31)
-            limit = 24 if (chk.quick() and nseg == 5 and rep > 0) else None
-            perms = list(itertools.permutations(range(nseg)))
-            if limit is not None:
-                perms = rng.sample(perms, limit)
-            for order in perms:
-                cases.append((mtu, xid, seed, length, list(order)))
-    count = 40 if chk.quick() else 600
+            specs.append((mtu, xid, rng.randrange(1, 2 ** 31), length,
+                          24 if (chk.quick() and nseg == 5 and rep > 0) else None))
+    for mtu in (19, 20, 22):   # smallest feasible MTUs: the bundle that just does not fit
+        specs.append((mtu, 3, rng.randrange(1, 2 ** 31), mtu - 4, 6 if chk.quick() else 40))
+    count = 14 if chk.quick() else 200
     for _ in range(count):
         mtu = rng.choice([19, 21, 30, 64, 200])
         nseg = rng.choice([6, 7, 8, 12, 20, 33])
         seg = mtu - 18
+        while seg * (nseg - 1) + 1 < mtu - 4:   # the bundle must not fit, or it is not segmented
+            nseg += 1
         length = seg * (nseg - 1) + rng.randrange(1, seg + 1)
-        order = list(range(nseg))
+        specs.append((mtu, rng.randrange(2 ** 32), rng.randrange(1, 2 ** 31), length, 3))
+    return specs
+
+
+def expand_orders(rng, nframes, nperm):
+    if nframes <= 5:
+        perms = [list(perm) for perm in itertools.permutations(range(nframes))]
+        if nperm is not None and nperm < len(perms):
+            perms = rng.sample(perms, nperm)
+        return perms
+    out = []
+    for _ in range(nperm or 3):
+        order = list(range(nframes))
         rng.shuffle(order)
-        cases.append((mtu, rng.randrange(2 ** 32), rng.randrange(1, 2 ** 31), length, order))
-    return cases
+        out.append(order)
+    return out
 
 
 def frame_of(case):
@@ -712,6 +745,8 @@ class Runner(object):
 
     def check_xfer(self, case, obs):
         (mtu, xid, seed, length, order) = case
+        if obs is None:
+            return None
         why = oracle_recv(mkdata(seed, length), obs)
         if why:
             self.chk.fail('C20 / recv / ' + why.split('(')[0].strip()[:70],
@@ -722,7 +757,10 @@ class Runner(object):
     def impl_xfer(self, case):
         (mtu, xid, seed, length, order) = case
         (frames, _term) = real_send(mtu, xid, mkdata(seed, length))
-        arrival = [(1, frames[pos] if pos < len(frames) else b'') for pos in order]
+        if sorted(order) != list(range(len(frames))):
+            # not "each segment exactly once": the property says nothing; do not judge
+            return (frames, None)
+        arrival = [(1, frames[pos]) for pos in order]
         return (frames, real_recv(arrival))
 
 
@@ -761,8 +799,8 @@ def run_all(chk):
         in_range = all(fits_field_ranges(case) for case in msgs)
         kinds = tuple(case[0] if case[0] < 6 else 6 for case in msgs)
         chk.case(('codec', pos), nontrivial=bool(msgs) and (len(msgs) > 1 or bool(msgs[0][2]) or bool(pad)),
-                 sample=dict(suite='codec', msgs=[[c[0], c[1], [[h[0], h[1].hex()] for h in c[2]], c[3], c[4], c[5].hex()[:40]] for c in msgs][:3],
-                             pad=pad.hex(), frame=impl['enc'].hex()[:80]))
+                 sample=samp(chk, 2, dict(suite='codec', msgs=[[c[0], c[1], [[h[0], h[1].hex()] for h in c[2]], c[3], c[4], c[5].hex()[:40]] for c in msgs][:3],
+                                          pad=pad.hex(), frame=impl['enc'].hex()[:80])) if len(msgs) > 1 and msgs[0][2] else None)
         for case in msgs:
             chk.count('codec_msg_type', case[0] if case[0] < 6 else 'other')
             chk.count('codec_hints', len(case[2]) if len(case[2]) <= 4 else '>4')
@@ -823,8 +861,8 @@ def run_all(chk):
         run.check_send(case, frames, term)
         nseg = len(frames)
         chk.case(('send', mtu, length), nontrivial=nseg >= 2,
-                 sample=dict(suite='send', mtu=mtu, xid=xid, seed=seed, length=length, frames=nseg,
-                             sizes=[len(f) for f in frames][:6]) if nseg in (2, 3) else None)
+                 sample=samp(chk, 4, dict(suite='send', mtu=mtu, xid=xid, seed=seed, length=length, frames=nseg,
+                                          sizes=[len(f) for f in frames][:6])) if nseg in (2, 3) else None)
         chk.count('send_frames', nseg if nseg < 6 else ('6-20' if nseg <= 20 else '>20'))
         chk.count('send_mtu', 'none' if mtu is None else ('<=18' if mtu <= 18 else ('19-64' if mtu <= 64 else ('65-1500' if mtu <= 1500 else '>1500'))))
         if mtu is not None and nseg >= 1:
@@ -846,17 +884,23 @@ def run_all(chk):
     chk.obligation('correspondence:send', not run.mismatch.get('send'), '; '.join(run.mismatch.get('send', [])[:3]))
 
     # ---- (c) receive: this sender's segments in every order ---------------------------------
-    xfer_cases = gen_xfer_cases(chk)
+    xfer_cases = []
     xfer_impl = []
-    for case in xfer_cases:
-        (frames, obs) = run.impl_xfer(case)
-        xfer_impl.append(obs)
-        run.check_xfer(case, obs)
-        nseg = len(case[4])
-        chk.case(('xfer',) + tuple(case[:4]) + (tuple(case[4]),), nontrivial=case[4] != sorted(case[4]),
-                 sample=dict(suite='recv', mtu=case[0], length=case[3], order=case[4],
-                             signal_counts=[n for (n, _r) in obs['trace']]) if nseg == 4 and case[4][0] == 3 else None)
-        chk.count('recv_segments', nseg if nseg <= 5 else '>5')
+    for (mtu, xid, seed, length, nperm) in gen_xfer_specs(chk):
+        data = mkdata(seed, length)
+        (frames, term) = real_send(mtu, xid, data)
+        run.check_send((mtu, xid, seed, length), frames, term)
+        for order in expand_orders(rng, len(frames), nperm):
+            case = (mtu, xid, seed, length, order)
+            obs = real_recv([(1, frames[pos]) for pos in order])
+            xfer_cases.append(case)
+            xfer_impl.append(obs)
+            run.check_xfer(case, obs)
+            nseg = len(order)
+            chk.case(('xfer',) + tuple(case[:4]) + (tuple(order),), nontrivial=order != sorted(order),
+                     sample=samp(chk, 6, dict(suite='recv', mtu=mtu, length=length, order=order,
+                                              signal_counts=[n for (n, _r) in obs['trace']])) if nseg == 4 and order[0] == 3 else None)
+            chk.count('recv_segments', nseg if nseg <= 5 else '>5')
     model = chk.coq_eval('xfer', ['Model.Btpu'], [c_xfer(*case) for case in xfer_cases], 'run_xfer', chunk=60)
     for (case, obs, mod) in zip(xfer_cases, xfer_impl, model):
         (m_counts, m_queue, m_signals, m_prog, m_timers, m_same) = mod
@@ -902,10 +946,12 @@ def search_more(chk):
             (frames, term) = real_send(case[0], case[1], mkdata(case[2], case[3]))
             if run.check_send(case, frames, term):
                 found = True
-        for case in gen_xfer_cases(chk):
-            (_frames, obs) = run.impl_xfer(case)
-            if run.check_xfer(case, obs):
-                found = True
+        for (mtu, xid, seed, length, nperm) in gen_xfer_specs(chk):
+            (frames, _term) = real_send(mtu, xid, mkdata(seed, length))
+            for order in expand_orders(chk.rng, len(frames), nperm):
+                obs = real_recv([(1, frames[pos]) for pos in order])
+                if run.check_xfer((mtu, xid, seed, length, order), obs):
+                    found = True
         for (pos, (msgs, pad)) in enumerate(gen_codec_cases(chk)):
             impl = run.impl_codec(msgs, pad)
             replay = dict(suite='codec', msgs=[[c[0], c[1], [[h[0], h[1].hex()] for h in c[2]], c[3], c[4], c[5].hex()] for c in msgs], pad=pad.hex())
@@ -969,6 +1015,7 @@ def main():
         run = run_all(chk)
         broken_tie = any(run.mismatch.values())
     except CoqError as err:
+        print('model evaluation failed: %s' % str(err)[:1500])
         chk.obligation('correspondence:model-evaluation', False, str(err)[:600])
         broken_tie = True
     broken = [name for (name, okay, _d) in chk.obligations if not okay]
